@@ -759,7 +759,6 @@ func (pc *provCtx) storeValidated(st *ssa.Store, f *types.Var) bool {
 	return false
 }
 
-
 // reachesSuccessWithoutPass: is there a path from the store to a successful
 // return (last result a nil error, or no error result) that does not take
 // the pass edge of validator call vc?
